@@ -157,9 +157,18 @@ def build(rng, cell, natoms):
         else:
             # isotropic: mostly positive; also a negative U (not positive definite) and a U tied to the pivot atom (-1.2, -1.5: positive quantities)
             uv = [rng.choice([round(rng.uniform(0.01, 0.09), 5)] * 4 + [round(rng.uniform(-0.45, -0.001), 5), -1.2, -1.5]), 0, 0, 0, 0, 0]
-            lines.append('C%d 1 %.5f %.5f %.5f 11.0 %.5f' % (i, xyz[0], xyz[1], xyz[2], uv[0]))
+            if rng.random() < 0.25:
+                # an isotropic atom of a structure solution: U followed by the peak height (SHELXT / SHELXS write these in front of HKLF)
+                lines.append('C%d 1 %.5f %.5f %.5f 11.0 %.5f %.2f' % (i, xyz[0], xyz[1], xyz[2], uv[0], rng.uniform(1, 300)))
+            else:
+                lines.append('C%d 1 %.5f %.5f %.5f 11.0 %.5f' % (i, xyz[0], xyz[1], xyz[2], uv[0]))
         atoms.append((xyz, uv, kind))
     lines += ['HKLF 4', 'END']
+    # Q-peaks behind END: isotropic with U = 0.05 and a peak height; never "not positive definite"
+    for q in range(rng.randint(0, 2)):
+        xyz = [round(rng.uniform(0, 1), 4) for _ in range(3)]
+        lines.append('Q%d 1 %.4f %.4f %.4f 11.00000 0.05 %.2f' % (q + 1, xyz[0], xyz[1], xyz[2], rng.uniform(0.2, 3)))
+        atoms.append((xyz, [0.05, 0, 0, 0, 0, 0], 'iso'))
     return '\n'.join(lines) + '\n', atoms
 
 
